@@ -27,6 +27,7 @@ mod c16;
 mod c18;
 mod c14;
 mod dce;
+mod gocomp;
 mod probe;
 mod rng;
 mod sexp;
@@ -62,6 +63,7 @@ fn main() {
         "c18" => c18::main(&args),
         "c14" => c14::main(&args),
         "dce" => dce::main(&args),
+        "gocomp" => gocomp::main(&args),
         "probe" => probe::main(&args),
         "stages" => probe::stages(&args),
         "golden" => probe::golden(&args),
